@@ -15,7 +15,7 @@ RULE = ("C07 histories (all event sequences of <=3 (quick) / <=4 (thorough) even
         "addresses fully spent and re-funded, per-address sums above 2^32 and close to 2^64, more than 65,536 addresses; x ranges x coins. Real `balances` runs: "
         "header + one row per address, balance = model sum; and the two-run relation: the balances file must equal the per-address "
         "aggregation of the unspentcsvdump file produced from the same directory and range. "
-        "One long run (more than 2^16 blocks in one process, three blk files) is compared with the model as well: thresholds of anything a run accumulates. distinct = (chain kind, coin, range kind) signatures")
+        "One long run (more than 2^16 blocks in one process, three blk files) is compared with the model as well: thresholds of anything a run accumulates. On fork coins the owners include address-bearing scripts of 10,000 / 10,001 / 12,025 bytes (no-op padding) and P2SH / P2PK templates with 10 kB pushes. distinct = (chain kind, coin, range kind) signatures")
 
 COINS3 = ["bitcoin", "litecoin", "dogecoin", "testnet3", "namecoin"]
 
